@@ -129,6 +129,11 @@ pub const EXTRA: &[&str] = &[
     "8/8/8/8/8/k7/8/KB6 b - - 10 50",
     "4k3/8/8/8/8/8/8/4K2R w K - 99 80",
     "4k3/8/8/8/8/8/8/4K2R w K - 98 80",
+    // exactly one legal move (forced-move shortcuts are a classic special case)
+    "k7/8/8/8/8/8/5PP1/r5K1 w - - 0 1",
+    "4k3/8/8/8/8/8/4q3/4K3 w - - 0 1",
+    "7k/5K2/8/8/8/8/8/6R1 b - - 0 1",
+    "8/8/8/8/8/5k2/7q/7K w - - 0 1",
     "QQQ5/7k/8/8/8/8/8/K7 w - - 0 1",
     "qqq4K/8/8/8/8/8/8/k7 w - - 0 1",
     "3Q4/1Q4Q1/4Q3/2Q4R/Q4Q2/3Q4/1Q4Rp/1K1BBNNk w - - 0 1",
